@@ -137,12 +137,16 @@ def main():
     lines = [c.line for c in cases]
     impl = lib.run_proto(hb, lines)
     impl_rel = lib.run_proto(harness_release, lines) if harness_release else None
+    def mline(c):
+        # the model may be asked the same question in its own words (e.g. a safe set given by its members)
+        return c.params.get("_model_line", c.line)
+
     def run_model(cs):
         """the model runs only on the cases that are compared (big adversarial inputs are implementation-only)"""
         if not drv:
             return [None] * len(cs)
         idx = [i for i, c in enumerate(cs) if c.compare]
-        outs = lib.run_proto(drv, [cs[i].line for i in idx], timeout=300)
+        outs = lib.run_proto(drv, [mline(cs[i]) for i in idx], timeout=300)
         res = [None] * len(cs)
         for i, o in zip(idx, outs):
             res[i] = o
@@ -228,7 +232,7 @@ def main():
         rng2.shuffle(idx)
         idx = idx[: (40 if tier == "quick" else 200)]
         xc_n = len(idx)
-        nbad, xc_bad = lib.coq_crosscheck([lines[i] for i in idx], [model[i] for i in idx], prop)
+        nbad, xc_bad = lib.coq_crosscheck([mline(cases[i]) for i in idx], [model[i] for i in idx], prop)
         if nbad:
             notes.append("vm_compute/extraction mismatch: %r" % xc_bad[:3])
 
